@@ -111,7 +111,7 @@ prop("C20", [
     dict(engine="verus", unit="httpd", fns=["lease_entries", "json_string", "publish_gauges"]),
     dict(POOL_B, checks=["sql_metrics", "sql_list"]),
     # the document itself, on the real serve_leases (body-independent: also judges a rewritten rendering chain)
-    dict(engine="sql", module="http", domain="stores of 0, 1, 3 and 5 leases; client identifiers of 0, 1, 2, 6 and 255 octets x host names absent / plain / quote+backslash / control characters / non-ASCII (28 listings)"),
+    dict(engine="sql", module="http", domain="stores of 0, 1, 3 and 5 leases; client identifiers of 0, 1, 2, 6 and 255 octets x host names absent / plain / quote+backslash / every control character / non-ASCII, plus stored option areas that do not decode (37 listings)"),
 ], explanation="listing: one formatted entry per row returned by get_leases (Verus, slice of serve_leases); gauge query and listing query against the row set, bounded exhaustive on real SQLite",
     assumptions=["JSON validity is decided for the host name (json_string, every input string); the other fields are an Ipv4Addr, hex digits and integers rendered by core::fmt (outside Verus): their text and the punctuation of the surrounding format strings are NOT decided",
                  "format!(\"\\\\u{:04x}\", n) for n < 0x20 yields \\u followed by four lower-case hex digits (assumed)",
